@@ -67,6 +67,8 @@ pub enum Op {
     Zip(usize, u8),
     /// client probes on the last items this client saw (C02 only)
     Probe,
+    /// try_from / TryFrom on one given value of the repr (C02 argument sweep of the narrow reprs)
+    TryFrom(i128),
 }
 
 #[derive(Clone, Debug, PartialEq, Eq)]
@@ -143,6 +145,7 @@ impl Op {
             RfoldPanic(k) => format!("Gp{}", us(*k)),
             Zip(k, m) => format!("Z{},{}", us(*k), m),
             Probe => "P".into(),
+            TryFrom(v) => format!("T{}", v),
         }
     }
 
@@ -215,6 +218,7 @@ impl Op {
                 Some(Zip(a, b as u8))
             }
             "P" if t.is_empty() => Some(Probe),
+            "T" => t.parse::<i128>().ok().map(TryFrom),
             _ => None,
         }
     }
@@ -265,7 +269,7 @@ impl Op {
     /// may change the cursor of a live handle
     pub fn is_state_changing(&self) -> bool {
         use Op::*;
-        !matches!(self, Len | SizeHint | Zip(..) | Probe | Drop) && !self.is_create()
+        !matches!(self, Len | SizeHint | Zip(..) | Probe | TryFrom(_) | Drop) && !self.is_create()
     }
 
     /// numeric arguments, for shrinking
